@@ -18,7 +18,7 @@ ASSUMPTIONS = ["math/rand: Intn transcribed in Model/Rand.v; the recorded Int63 
                "nucleotide alphabet only for the sequence variant; characters of align.IupacCode in either case; other "
                "characters (X . ? *) get no state in asr.parsimonyUPPASS and are outside the property's quantifier: not generated",
                "site-by-site comparison: the character variant is given the upper-cased nucleotide as the state"]
-LEVEL_TEXT = ("Theorems (Properties/C12.v, 45 statements, closed) for all well-formed trees of any degree and all tip-state "
+LEVEL_TEXT = ("Theorems (Properties/C12.v, 53 statements, closed) for all well-formed trees of any degree and all tip-state "
               "assignments (single states or non-empty sets): the up-pass step count = the definitional minimum over all "
               "labellings (Hartigan); the minimum and the step count are invariant under Reroot; DOWNPASS reports at every "
               "inner node exactly the states of the most-parsimonious labellings; DELTRAN and ACCTRAN report only such states; "
@@ -28,11 +28,13 @@ LEVEL_TEXT = ("Theorems (Properties/C12.v, 45 statements, closed) for all well-f
               "injective embedding of the alphabet, hence the sequence variant at an unambiguous site = the character variant; random resolution, for every source "
               "of choices: steps unchanged, one state at every inner node, DOWNPASS/DELTRAN states stay in the plain DOWNPASS "
               "set, ACCTRAN's labelling is most parsimonious; DOWNPASS/DELTRAN labelling optimality REFUTED with witnesses; "
-              "stateless tips (X . ? *) cost one step each; returned map: last inner node wins, keys unique")
+              "stateless tips (X . ? *) cost one step each; returned map: last inner node wins, keys unique; the node-major random "
+              "run of the sequence variant projects site by site onto one-character runs (same per-site theorems); front-end "
+              "error cases and the trailing 0 of the step list; DELTRAN sets = delayed-transformation states REFUTED")
 LEVEL_NOTE = ("The model is tied to acr/asr by the correspondence check (steps, every node comment, returned map); the oracle "
-              "(Sankoff DP + brute force on small trees, extracted from Spec/Parsimony.v) judges Go's output directly. Random "
-              "resolution of the sequence variant (all sites of a node drawn before the next node) is modelled and checked by "
-              "correspondence; its theorems are stated on the one-character passes.")
+              "(Sankoff DP + brute force on small trees, extracted from Spec/Parsimony.v) judges Go's output directly. ACCTRAN "
+              "sets = accelerated-transformation states and delayed states inside the DELTRAN sets are tested on small trees "
+              "only (Proofs/ParsimonyDelay.v), not proved.")
 
 STATE_POOLS = [["A", "B", "C", "D"], ["A", "B", "C", "D"], ["0", "1", "2", "3"], ["b", "B", "10", "9"],
                ["x y", "X", "-", "ab"], ["T", "F", "N", "U"]]
